@@ -63,7 +63,9 @@ func (impl Implementation) Dgels(trans blas.Transpose, m, n, nrhs int, a []float
 
 	// Quick return if possible.
 	if mn == 0 || nrhs == 0 {
-		impl.Dlaset(blas.All, max(m, n), nrhs, 0, 0, b, ldb)
+		if lwork != -1 {
+			impl.Dlaset(blas.All, max(m, n), nrhs, 0, 0, b, ldb)
+		}
 		work[0] = 1
 		return true
 	}
